@@ -177,7 +177,7 @@ func runFlagXform(c *core.Ctx) []core.Obligation {
 		b.und("flagxform:-", "-", "package proto not loaded")
 		return b.out
 	}
-	type pair struct{ size, encode *ssa.Function }
+	type pair struct{ size, encode, decode *ssa.Function }
 	pairs := map[string]*pair{}
 	for _, fn := range c.RepoFunctions() {
 		if fn.Pkg == nil || fn.Pkg.Pkg.Name() != "proto" || fn.Name() != "init" || fn.Blocks == nil {
@@ -214,6 +214,8 @@ func runFlagXform(c *core.Ctx) []core.Obligation {
 					pairs[g.Name()].size = f
 				case "encode":
 					pairs[g.Name()].encode = f
+				case "decode":
+					pairs[g.Name()].decode = f
 				}
 			}
 		}
@@ -253,6 +255,11 @@ func runFlagXform(c *core.Ctx) []core.Obligation {
 		n++
 		key := "flagxform:" + name
 		sx, ex := xforms(p.size), xforms(p.encode)
+		// the decoder undoes what the encoder did: when the encoder's value depends on the flags
+		// (zig-zag), so does the decoder's
+		if p.decode != nil && len(ex) > 0 && len(xforms(p.decode)) == 0 {
+			b.bad(key+":decode", c.FuncPos(p.decode), fmt.Sprintf("%s applies the flag-dependent transformations %v, %s applies none: a field tagged zigzag is written zig-zag encoded and read back as a plain varint — the reference bytes 08 05 decode to 5 where the message says -3", p.encode.Name(), ex, p.decode.Name()))
+		}
 		if strings.Join(sx, ",") == strings.Join(ex, ",") {
 			b.ok(key, c.FuncPos(p.size), fmt.Sprintf("%s and %s apply the same flag-dependent transformations %v", p.size.Name(), p.encode.Name(), sx))
 		} else {
